@@ -299,7 +299,8 @@ class Gen:
         tables = _rand_partition_tables(rng, size, nlev)
         levels = [{"name": "%s%d" % (NAMES[fid % 5], i), "w": 1, "table": tables[i]} for i in range(nlev)]
         if else_level:
-            levels[-1]["else"] = True
+            # the ElseLevel may stand anywhere in the list: it matches what *all* the other levels leave over
+            levels[rng.randrange(nlev) if rng.random() < 0.4 else -1]["else"] = True
         return {"id": fid, "name": "f%d" % fid, "levels": levels, "window": w}
 
     def constraint(self, factors, fid_pool, ntrials, kinds):
